@@ -149,7 +149,7 @@ def match_known(known, pid, sub, locus):
 
 
 def write_replay(pid, sub, v, tier):
-    d = os.path.join(VERIF_DIR, "replays", pid)
+    d = os.path.join(os.environ.get("VERIF_MC_OUT") or VERIF_DIR, "replays", pid)
     os.makedirs(d, exist_ok=True)
     body = {"property": pid, "subcheck": sub.name, "signature": [sub.name, v["locus"]],
             "tier": tier, "seed": seed(), "engine": v.get("engine", sub.engine)}
@@ -236,8 +236,9 @@ def finish(pid, level, tier, subs, t0, assumptions=(), technique=""):
     }
     ev = {"property_id": pid, "tier": tier, "seed": seed(), "level": level, "coverage": cov,
           "assumptions": list(assumptions), "wall_s": round(wall, 2), "violations": unknown_violations}
-    os.makedirs(os.path.join(VERIF_DIR, "evidence"), exist_ok=True)
-    path = os.path.join(VERIF_DIR, "evidence", "%s.json" % pid)
+    evdir = os.environ.get("VERIF_MC_OUT") or VERIF_DIR      # VERIF_MC_OUT: mutant campaigns write elsewhere
+    os.makedirs(os.path.join(evdir, "evidence"), exist_ok=True)
+    path = os.path.join(evdir, "evidence", "%s.json" % pid)
     with open(path, "w") as f:
         json.dump(E1.jsonable(ev), f, indent=1, sort_keys=True)
     ok = validate_evidence(path)
